@@ -104,8 +104,28 @@ def evaluate(cs, rep, tier):
         t = impl[idx].split()
         if t[0] == "1" and c.tag == "mixed" and n and t[n] == "1":
             repaired += 1
+    # objects of 4 GiB and more (never materialised): a decoder that has received fewer than ceil(F/T) packets
+    # cannot know the object, so every answer must be None (source packets with arbitrary payloads are packets of
+    # SOME object; a Some(..) here is neither None nor "exactly the object of F bytes")
+    huge = []
+    rh = C.Rng(C.get_seed()).fork("C01huge")
+    for (f, t) in [((1 << 32) + 1000, 1024), ((1 << 33) + 5, 4096), ((1 << 32) + 1, 65535), ((1 << 36) + 7, 65535), ((1 << 32) - 1 + 1024, 1024)]:
+        kt = -(-f // t)
+        z = min(255, max(-(-kt // 56403), rh.choice([1, 3, 75])))
+        ks = CG.block_sizes(f, t, z)
+        pk = [(b, 0) for b in range(z)] + [(b, ks[b] - 1) for b in range(z)] + [(0, 1), (z - 1, ks[z - 1]), (0, 0)]
+        a = [f, t, z, 1, 1, len(pk)]
+        for b, e in pk:
+            a += [b, e]
+        huge.append(C.Case("dec_feed", a, tag="huge"))
+    for prof in PROFILES:
+        for c, r in zip(huge, C.run_impl_crashsafe(huge, prof, chunk=1, timeout=600)):
+            tok = r.split()
+            if tok[0] != "1" or any(x != "0" for x in tok[1:]):
+                counter.append({"input": c.impl_line(), "expected": "None after every packet (%d packets of an object of %d symbols)" % (c.args[5], -(-c.args[0] // c.args[1])), "observed": r[:120], "profile": prof, "oracle": "C01: None or exactly the object of F bytes"})
+                break
     return {"disagreements": dis, "counterexamples": counter,
-            "stats": {"evaluations": len(cs) * 4, "distinct_nontrivial": repaired,
+            "stats": {"evaluations": len(cs) * 4, "distinct_nontrivial": repaired, "huge_object_decoder_feeds": len(huge),
                       "samples": [cs[5].impl_line()[:240] + " ... -> " + impl[5][:60]],
                       "steps_compared": sum(c.args[6] for c in cs),
                       "input_distribution": {"repair_only_block_receptions": len(blocks), "histories": len(cs), "all_source": sum(1 for c in cs if c.tag == "all_source"), "Z>1": sum(1 for c in cs if c.args[2] > 1),
